@@ -267,8 +267,14 @@ class AddressRange(collections.namedtuple(
 
     def __contains__(self, address):
         address = AddressCell(address)
-        return (self.start.row <= address.row <= self.end.row and
-                self.start.col_idx <= address.col_idx <= self.end.col_idx)
+        if self.sheet and address.sheet and self.sheet != address.sheet:
+            return False
+        # a whole column (row) range has row (column) bounds of 0
+        rows_ok = not (self.start.row or self.end.row) or (
+            self.start.row <= address.row <= self.end.row)
+        cols_ok = not (self.start.col_idx or self.end.col_idx) or (
+            self.start.col_idx <= address.col_idx <= self.end.col_idx)
+        return rows_ok and cols_ok
 
     @property
     def col_idx(self):
